@@ -372,6 +372,14 @@ def d45(ctx, rep, prog):
         b = prog.bodies[k]
         site = {'file': a['file'], 'line': a['line']}
         srcs = [c for c in b['calls'] if re.search(r'Iterator>::next$|Receiver::<T>::(recv|try_recv|recv_timeout)$', c['callee']) and prog.dominates(b, c['bb'], a['bb'])]
+        if not srcs and b['kind'] == 'closure' and b.get('parent') in prog.bodies:
+            # the iterator spelling of the loop: `buffer.into_iter().fold(map, |mut m, x| { *m.entry(..).or_default() += x; m })` —
+            # the elements come from the receiver of the fold / for_each the closure is handed to, in the enclosing body
+            pb = prog.bodies[b['parent']]
+            tag = f":{b['line']}:"
+            drivers = [c for c in pb['calls'] if re.search(r'Iterator>?::(fold|try_fold|for_each|try_for_each)$', c['callee']) and any(tag in t for t in c.get('arg_tys', []))]
+            if len(drivers) == 1:
+                k, b, srcs = b['parent'], pb, drivers
         if not srcs:
             raise core.Incomplete('collector: the loop feeding `+=` was not recognised')
         src = max(srcs, key=lambda c: sum(1 for d in srcs if prog.dominates(b, d['bb'], c['bb'])))
